@@ -18,6 +18,7 @@ func c10Worker(ctx *core.Ctx) *core.Result {
 		routePairSpace("ASA"),
 		asaBindSpace(),
 		asaVPNCutSpace(),
+		asaSharedGroupSpace(),
 	}
 	ios := []*space{
 		c02ACLSpace("acl", 5, 3),
